@@ -377,12 +377,17 @@ impl<'a> Tr<'a> {
             }
         }
         let sc = self.pure(&m.expr, env, None)?;
+        if m.arms.iter().any(|a| a.guard.is_some()) {
+            return self.guarded_match_k(&sc, &m.arms.iter().collect::<Vec<_>>(), env, hint, k);
+        }
+        self.plain_match_k(&sc, &m.arms.iter().collect::<Vec<_>>(), None, env, hint, k)
+    }
+
+    /// a match without guards; `rest`: translation of the arms that follow (used for `| _ => rest`)
+    fn plain_match_k(&mut self, sc: &Val, arms: &[&Arm], rest: Option<&str>, env: &Env, hint: Option<&Ty>, k: K) -> R<String> {
         let mut pats = vec![];
         let mut bodies = vec![];
-        for arm in m.arms.iter() {
-            if arm.guard.is_some() {
-                return Err(unsupported(arm, "match guard"));
-            }
+        for arm in arms.iter() {
             let mut env2 = env.clone();
             let mut ps = self.bind_pat(&arm.pat, &sc.ty, &mut env2)?;
             // a top-level or-pattern is written without the surrounding parentheses
@@ -393,12 +398,16 @@ impl<'a> Tr<'a> {
             bodies.push((env2, Body::Expr(&arm.body)));
         }
         let scs = sc.s.clone();
+        let rest = rest.map(|r| r.to_string());
         self.branches(
             bodies,
             &|s| {
                 let mut out = format!("match {} with\n", scs);
                 for (p, b) in pats.iter().zip(s.iter()) {
                     out.push_str(&format!("| {} =>\n{}\n", p, b));
+                }
+                if let Some(r) = &rest {
+                    out.push_str(&format!("| _ =>\n{}\n", r));
                 }
                 out.push_str("end");
                 out
@@ -407,6 +416,57 @@ impl<'a> Tr<'a> {
             hint,
             k,
         )
+    }
+
+    /// match with guards: `pat if g => a` is `| pat => if g then a else <the arms that follow>`; the continuation is
+    /// duplicated into every arm (the arms that follow appear twice)
+    fn guarded_match_k(&mut self, sc: &Val, arms: &[&Arm], env: &Env, hint: Option<&Ty>, k: K) -> R<String> {
+        if arms.is_empty() {
+            return Err("unsupported construct: match whose last arm has a guard (non-exhaustive for the translator)".into());
+        }
+        let irrefutable = |p: &Pat| matches!(p, Pat::Wild(_) | Pat::Ident(_));
+        if arms[0].guard.is_none() {
+            // the maximal guard-free prefix is one ordinary match
+            let n = arms.iter().take_while(|a| a.guard.is_none()).count();
+            let run = &arms[..n];
+            if n == arms.len() || run.iter().any(|a| irrefutable(&a.pat)) {
+                let upto = run.iter().position(|a| irrefutable(&a.pat)).map(|i| i + 1).unwrap_or(n);
+                return self.plain_match_k(sc, &run[..upto], None, env, hint, k);
+            }
+            let rest = self.guarded_match_k(sc, &arms[n..], env, hint, k)?;
+            // continuation-duplicating strategy: arms are translated with k themselves
+            let mut pats = vec![];
+            let mut strs = vec![];
+            for arm in run.iter() {
+                let mut env2 = env.clone();
+                let mut ps = self.bind_pat(&arm.pat, &sc.ty, &mut env2)?;
+                if matches!(arm.pat, Pat::Or(_)) && ps.starts_with('(') && ps.ends_with(')') {
+                    ps = ps[1..ps.len() - 1].to_string();
+                }
+                pats.push(ps);
+                strs.push(self.expr_k(&arm.body, &env2, hint, k)?);
+            }
+            let mut out = format!("match {} with\n", sc.s);
+            for (p, b) in pats.iter().zip(strs.iter()) {
+                out.push_str(&format!("| {} =>\n{}\n", p, b));
+            }
+            out.push_str(&format!("| _ =>\n{}\nend", rest));
+            return Ok(out);
+        }
+        let arm = arms[0];
+        let (_, g) = arm.guard.as_ref().unwrap();
+        let mut env2 = env.clone();
+        let ps = self.bind_pat(&arm.pat, &sc.ty, &mut env2)?;
+        let gv = self.pure(g, &env2, Some(&Ty::Bool))?;
+        if gv.ty != Ty::Bool {
+            return Err(unsupported(&**g, "guard that is not bool"));
+        }
+        let body = self.expr_k(&arm.body, &env2, hint, k)?;
+        let rest = self.guarded_match_k(sc, &arms[1..], env, hint, k)?;
+        if irrefutable(&arm.pat) {
+            return Ok(format!("let {} := {} in\nif {} then\n{}\nelse\n{}", ps, sc.s, gv.s, body, rest));
+        }
+        Ok(format!("match {} with\n| {} =>\nif {} then\n{}\nelse\n{}\n| _ =>\n{}\nend", sc.s, ps, gv.s, body, rest, rest))
     }
 
     /// place expression -> (root variable, field path)
